@@ -414,6 +414,11 @@ func (p *Program) verifyFunc(t *target) (vc *VC, rep *FuncReport) {
 		if x.counts["atcall:"+key] == 0 {
 			panic(unsupported("at_call " + key + ": the function makes no call of a function under that contract name (clause would be vacuous)"))
 		}
+		for i, ca := range c.CallAsserts[key] {
+			if x.counts[fmt.Sprintf("atcall-eval:%s#%d", key, i)] == 0 {
+				panic(unsupported("at_call " + key + ": clause in scope at no call site: " + trunc(ca.Src, 80)))
+			}
+		}
 	}
 	// frame: everything outside the modifies clause is unchanged (for objects that existed at entry)
 	if len(x.returns) > 0 && !c.Opts["lockhavoc"] && !c.Opts["assume_post"] {
